@@ -9,13 +9,14 @@ package main
 import (
 	"bytes"
 	"encoding/json"
-	"os"
 	"fmt"
+	"os"
 	"sort"
 	"strings"
 
 	"github.com/33cn/chain33/common/address"
 	clog "github.com/33cn/chain33/common/log"
+	cty "github.com/33cn/chain33/system/dapp/coins/types"
 	"github.com/33cn/chain33/types"
 	"verif/vnode"
 	"verif/vnode/lidx"
@@ -29,10 +30,13 @@ type kase struct {
 	Block   string `json:"block"`
 }
 
-var siblingNames = []string{"S0[G->E]", "S1[A->D,G->C]"}
+var siblingNames = []string{"S0[G->E]", "S1[A->D,G->C]", "S2[G->E;8x work;B buried under a filler block]"}
+
+// heavyBits has about eight times the work of treex.Bits[0].
+const heavyBits = 0x1f001fff
 
 func siblingTxs(e *lidx.Env, i int) []*types.Transaction {
-	if i == 0 {
+	if i != 1 {
 		return []*types.Transaction{e.Transfer(lidx.G, lidx.E, 77)}
 	}
 	return []*types.Transaction{e.Transfer(lidx.A, lidx.D, 78), e.Transfer(lidx.G, lidx.C, 79)}
@@ -131,7 +135,11 @@ func main() {
 			if len(mine) == 0 {
 				continue
 			}
-			S, err := env.Make(F, siblingTxs(env, si), treex.Bits[1])
+			sbits := treex.Bits[1]
+			if si == 2 {
+				sbits = heavyBits
+			}
+			S, err := env.Make(F, siblingTxs(env, si), sbits)
 			if err != nil || len(S.Txs) == 0 {
 				fmt.Println("HARNESS-ERROR sibling", err)
 				r.Finish()
@@ -188,17 +196,14 @@ func main() {
 					n.Forget()
 					continue
 				}
-				if replay != nil {
-					d, _ := n.Chain.GetBlock(B.Height)
-					msg := n.Client.NewMessage("execs", types.EventDelBlock, d)
-					n.Client.Send(msg, true)
-					resp, _ := n.Client.Wait(msg)
-					if set, ok := resp.GetData().(*types.LocalDBSet); ok {
-						for _, kv := range set.KV {
-							fmt.Printf("  DEL %q = %x (nil=%v)\n", kv.Key, kv.Value, kv.Value == nil)
+				failedTo := map[string]int64{}
+				if d, err := n.Chain.GetBlock(B.Height); err == nil && len(d.Receipts) == len(d.Block.Txs) {
+					for i, tx := range d.Block.Txs {
+						r.Seen("receipt_kinds", fmt.Sprintf("%s ty=%d", tx.Execer, d.Receipts[i].Ty))
+						var act cty.CoinsAction
+						if string(tx.Execer) == "coins" && d.Receipts[i].Ty != types.ExecOk && types.Decode(tx.Payload, &act) == nil && act.GetTransfer() != nil {
+							failedTo[tx.GetRealToAddr()] += act.GetTransfer().Amount
 						}
-					} else {
-						fmt.Println("  DEL reply", resp.GetData())
 					}
 				}
 				withB := lidx.LocalDump(n)
@@ -215,6 +220,23 @@ func main() {
 				}
 				for q := range qchanged {
 					r.Seen("queries_changed_by_B", q)
+				}
+				if si == 2 {
+					// bury B under a filler block produced and connected on the subject itself
+					T, err := vnode.MakeBlock(n, B, []*types.Transaction{env.Transfer(lidx.G, lidx.E, 55)}, treex.Bits[0], 0)
+					if err == nil {
+						err = n.Deliver(vnode.Broadcast, T, "peer")
+					}
+					if err != nil || n.Chain.GetBlockHeight() != B.Height+1 {
+						r.Note("%s: filler block on top of B failed: %v", name, err)
+						n.Close()
+						n.Forget()
+						continue
+					}
+					_, _, tth := hashesOf(cfg, T)
+					probe.Txs = append(probe.Txs, tth...)
+					probe.Blocks = append(probe.Blocks, T.Hash(cfg))
+					probe.States = append(probe.States, T.StateHash)
 				}
 				if err := n.Deliver(vnode.Broadcast, S, "peer"); err != nil {
 					r.Note("%s: sibling refused: %v", name, err)
@@ -250,32 +272,36 @@ func main() {
 					fmt.Println("  heights", n.Chain.GetBlockHeight(), ref.Chain.GetBlockHeight(), n.ID, ref.ID)
 				}
 				// oracle 1: public queries
-				qd := viewAfter.Diff(viewRef, 8)
-				qclasses := map[string]bool{}
-				for _, d := range viewAfter.Diff(viewRef, 1000) {
-					qclasses[lidx.QueryClass(strings.SplitN(d, ":", 2)[0])] = true
+				allq := viewAfter.Diff(viewRef, 1000)
+				shown := allq
+				if len(shown) > 8 {
+					shown = shown[:8]
 				}
-				for q := range qclasses {
-					k0 := ""
-					for _, d := range qd {
-						if lidx.QueryClass(strings.SplitN(d, ":", 2)[0]) == q {
-							k0 = strings.SplitN(d, ":", 2)[0]
-							break
-						}
+				for _, d := range allq {
+					key := strings.SplitN(d, ":", 2)[0]
+					fp := "query-not-restored:" + lidx.QueryClass(key)
+					if why := failedCredit(key, viewAfter[key], viewRef[key], addrs, failedTo); why != "" {
+						fp = why
 					}
-					r.Violate("query-not-restored:"+q, fmt.Sprintf("%s: after B was disconnected the query %s answers differently from a node that never saw B (%q vs %q); all differing: %s", name, k0, clip(viewAfter[k0]), clip(viewRef[k0]), strings.Join(qd, "; ")), kc, nil)
+					r.Violate(fp, fmt.Sprintf("%s: after B was disconnected the query %s answers differently from a node that never saw B (%q vs %q); all differing: %s", name, key, clip(viewAfter[key]), clip(viewRef[key]), strings.Join(shown, "; ")), kc, nil)
 				}
 				// oracle 2: raw local-index records
 				for _, d := range lidx.DiffDump(refDump, after) {
 					if d.Zero() {
 						r.Count("zero_counter_records_left_behind", 1)
 						r.Seen("zero_counter_families", d.Family)
-						if len(qclasses) == 0 {
-							r.Note("raw residue (not reported): after %s a zero-valued record stays under %s where the reference has none; no listed query can tell", sp.Name, d.Family)
+						if len(allq) == 0 {
+							r.Note("raw residue (counted, not reported): after %s a zero-valued record stays under %s where the reference node has none; none of the listed queries can tell it from an absent record", sp.Name, d.Family)
 						}
 						continue
 					}
-					r.Violate("record-not-restored:"+d.Family+":"+d.Kind, fmt.Sprintf("%s: after B was disconnected the blockchain database differs from a node that never saw B: %s", name, d), kc, nil)
+					fp := "record-not-restored:" + d.Family + ":" + d.Kind
+					if strings.HasPrefix(d.Key, "LODB-coins-Addr:") {
+						if why := failedCreditRaw(strings.TrimPrefix(d.Key, "LODB-coins-Addr:"), d.Got, d.Ref, failedTo); why != "" {
+							fp = why
+						}
+					}
+					r.Violate(fp, fmt.Sprintf("%s: after B was disconnected the blockchain database differs from a node that never saw B: %s", name, d), kc, nil)
 				}
 				r.SampleN(6, map[string]interface{}{"case": kc, "families_changed_by_B": fl, "txs_in_B": len(B.Txs)})
 			}
@@ -291,4 +317,54 @@ func clip(s string) string {
 		return s[:60] + "..."
 	}
 	return s
+}
+
+const fpFailedCredit = "coins-received-total:failed-transfer-credited-on-add-not-debited-on-remove"
+
+func int64Of(b string) (int64, bool) {
+	var v types.Int64
+	if types.Decode([]byte(b), &v) != nil {
+		return 0, false
+	}
+	return v.Data, true
+}
+
+// failedCreditRaw recognises the residue of one known defect class: the coins executor's local
+// "received" total of an address is higher than the reference by exactly the amounts of the failed
+// (ExecPack) transfers that B addressed to it.
+func failedCreditRaw(addr, got, ref string, failedTo map[string]int64) string {
+	g, ok1 := int64Of(got)
+	w, ok2 := int64Of(ref)
+	if ok1 && ok2 && failedTo[addr] != 0 && g-w == failedTo[addr] {
+		return fpFailedCredit
+	}
+	return ""
+}
+
+func failedCredit(key, got, ref string, addrs []string, failedTo map[string]int64) string {
+	if !strings.HasPrefix(key, "addr#") || !strings.HasPrefix(got, "OK ") {
+		return ""
+	}
+	var ai int
+	var rest string
+	if _, err := fmt.Sscanf(strings.Replace(key, "/", " ", 1), "addr#%d %s", &ai, &rest); err != nil || ai >= len(addrs) {
+		return ""
+	}
+	got = strings.TrimPrefix(got, "OK ")
+	if strings.HasPrefix(ref, "ERR ") {
+		ref = "" // no record: received total 0
+	} else {
+		ref = strings.TrimPrefix(ref, "OK ")
+	}
+	switch rest {
+	case "coins-local-received":
+		return failedCreditRaw(addrs[ai], got, ref, failedTo)
+	case "overview":
+		var g, w types.AddrOverview
+		if types.Decode([]byte(got), &g) == nil && types.Decode([]byte(ref), &w) == nil && g.TxCount == w.TxCount && g.Balance == w.Balance &&
+			failedTo[addrs[ai]] != 0 && g.Reciver-w.Reciver == failedTo[addrs[ai]] {
+			return fpFailedCredit
+		}
+	}
+	return ""
 }
